@@ -1,1 +1,1081 @@
-// harnesses
+//! Kani proof harnesses for mamba's lexer (`/repo/src/parse/lex`) and two name tables.
+//!
+//! Run one harness (see `/verif/lib/kani_runner.py`):
+//!
+//! ```text
+//! cd /verif/kani && CARGO_NET_OFFLINE=true cargo kani --harness <name> \
+//!     --target-dir <dir outside /verif and /repo> --no-memory-safety-checks --output-format terse
+//! ```
+//!
+//! Families
+//!  A. `step2_*` / `step3_*`, `step_other_char` : one call of the real `into_tokens` with a concrete
+//!     first character and K symbolic ASCII look-ahead bytes (effective length n <= K symbolic).
+//!  B. `state_*`                                : one call of one `State` method from an arbitrary state.
+//!  C. `table_*`                                : `concrete_to_python` and `as_op_or_id` against
+//!     hand-written tables.
+//!
+//! Everything a harness assumes is a `kani::assume` in this file (grep for it); every bound is a
+//! `const` or a macro argument in this file.
+#![allow(dead_code)]
+#![allow(unused_imports)]
+#![allow(clippy::all)]
+
+#[cfg(kani)]
+mod harnesses {
+    use core::mem::forget;
+
+    use mamba::check::context::clss::concrete_to_python;
+    use mamba::common::position::{CaretPos, Position};
+    use mamba::parse::verif_hooks::{
+        verif_as_op_or_id, verif_into_tokens, Lex, LexErr, LexResult, Token, VerifState,
+    };
+
+    // ------------------------------------------------------------------------------------------
+    // Token kinds the harnesses talk about (own fieldless enum: comparing it never touches the
+    // String / Vec payloads of `Token`, and no `Token` value has to be built and dropped).
+    // ------------------------------------------------------------------------------------------
+    #[derive(Clone, Copy, PartialEq, Eq, Debug)]
+    pub enum K {
+        // punctuation / operators produced by the fixed-width arms
+        Comma,
+        DoublePoint,
+        Assign,
+        Slice,
+        SliceIncl,
+        LRBrack,
+        RRBrack,
+        LSBrack,
+        RSBrack,
+        LCBrack,
+        RCBrack,
+        Ver,
+        Point,
+        Range,
+        RangeIncl,
+        Le,
+        Leq,
+        BLShift,
+        BLShiftAssign,
+        Ge,
+        Geq,
+        BRShift,
+        BRShiftAssign,
+        Add,
+        AddAssign,
+        Sub,
+        SubAssign,
+        To,
+        Mul,
+        MulAssign,
+        Div,
+        DivAssign,
+        FDiv,
+        BSlash,
+        Pow,
+        PowAssign,
+        Eq,
+        BTo,
+        Neq,
+        Question,
+        // layout
+        NL,
+        Indent,
+        Dedent,
+        // keywords (as_op_or_id)
+        Underscore,
+        From,
+        Type,
+        Class,
+        Pure,
+        As,
+        Import,
+        Forward,
+        Vararg,
+        Def,
+        Fin,
+        And,
+        Or,
+        Not,
+        Is,
+        IsA,
+        Mod,
+        Sqrt,
+        While,
+        For,
+        BAnd,
+        BOr,
+        BXOr,
+        BOneCmpl,
+        If,
+        Else,
+        Match,
+        Continue,
+        Break,
+        Ret,
+        Then,
+        Do,
+        With,
+        In,
+        Raise,
+        Handle,
+        When,
+        Pass,
+        // payload carrying
+        Id,
+        Comment,
+        // anything else (Real, Int, ENum, Str, DocStr, Eof)
+        Other,
+        // "no token" marker used by the step harness result
+        NoTok,
+    }
+
+    pub fn kind_of(t: &Token) -> K {
+        match t {
+            Token::Comma => K::Comma,
+            Token::DoublePoint => K::DoublePoint,
+            Token::Assign => K::Assign,
+            Token::Slice => K::Slice,
+            Token::SliceIncl => K::SliceIncl,
+            Token::LRBrack => K::LRBrack,
+            Token::RRBrack => K::RRBrack,
+            Token::LSBrack => K::LSBrack,
+            Token::RSBrack => K::RSBrack,
+            Token::LCBrack => K::LCBrack,
+            Token::RCBrack => K::RCBrack,
+            Token::Ver => K::Ver,
+            Token::Point => K::Point,
+            Token::Range => K::Range,
+            Token::RangeIncl => K::RangeIncl,
+            Token::Le => K::Le,
+            Token::Leq => K::Leq,
+            Token::BLShift => K::BLShift,
+            Token::BLShiftAssign => K::BLShiftAssign,
+            Token::Ge => K::Ge,
+            Token::Geq => K::Geq,
+            Token::BRShift => K::BRShift,
+            Token::BRShiftAssign => K::BRShiftAssign,
+            Token::Add => K::Add,
+            Token::AddAssign => K::AddAssign,
+            Token::Sub => K::Sub,
+            Token::SubAssign => K::SubAssign,
+            Token::To => K::To,
+            Token::Mul => K::Mul,
+            Token::MulAssign => K::MulAssign,
+            Token::Div => K::Div,
+            Token::DivAssign => K::DivAssign,
+            Token::FDiv => K::FDiv,
+            Token::BSlash => K::BSlash,
+            Token::Pow => K::Pow,
+            Token::PowAssign => K::PowAssign,
+            Token::Eq => K::Eq,
+            Token::BTo => K::BTo,
+            Token::Neq => K::Neq,
+            Token::Question => K::Question,
+            Token::NL => K::NL,
+            Token::Indent => K::Indent,
+            Token::Dedent => K::Dedent,
+            Token::Underscore => K::Underscore,
+            Token::From => K::From,
+            Token::Type => K::Type,
+            Token::Class => K::Class,
+            Token::Pure => K::Pure,
+            Token::As => K::As,
+            Token::Import => K::Import,
+            Token::Forward => K::Forward,
+            Token::Vararg => K::Vararg,
+            Token::Def => K::Def,
+            Token::Fin => K::Fin,
+            Token::And => K::And,
+            Token::Or => K::Or,
+            Token::Not => K::Not,
+            Token::Is => K::Is,
+            Token::IsA => K::IsA,
+            Token::Mod => K::Mod,
+            Token::Sqrt => K::Sqrt,
+            Token::While => K::While,
+            Token::For => K::For,
+            Token::BAnd => K::BAnd,
+            Token::BOr => K::BOr,
+            Token::BXOr => K::BXOr,
+            Token::BOneCmpl => K::BOneCmpl,
+            Token::If => K::If,
+            Token::Else => K::Else,
+            Token::Match => K::Match,
+            Token::Continue => K::Continue,
+            Token::Break => K::Break,
+            Token::Ret => K::Ret,
+            Token::Then => K::Then,
+            Token::Do => K::Do,
+            Token::With => K::With,
+            Token::In => K::In,
+            Token::Raise => K::Raise,
+            Token::Handle => K::Handle,
+            Token::When => K::When,
+            Token::Pass => K::Pass,
+            Token::Id(_) => K::Id,
+            Token::Comment(_) => K::Comment,
+            Token::Real(_)
+            | Token::Int(_)
+            | Token::ENum(..)
+            | Token::Str(..)
+            | Token::DocStr(_)
+            | Token::Eof => K::Other,
+        }
+    }
+
+    // ==========================================================================================
+    // A. one lexer step, fixed-width arms
+    // ==========================================================================================
+
+    /// What one step from first character `c` must do, as a function of the look-ahead only.
+    /// Written from the canonical spellings (`Display for Token`, docs/spec), longest match first;
+    /// NOT transcribed from `into_tokens`.
+    #[derive(Clone, Copy, PartialEq, Eq)]
+    pub enum Exp {
+        /// exactly one token of this kind whose canonical spelling has this many characters
+        Tok(K, usize),
+        /// a blank: no token, caret one column to the right
+        Space,
+        /// a line break spelled with this many characters: no token, caret to (line + 1, 1)
+        Newline(usize),
+        /// lexing error
+        Err,
+    }
+
+    fn is(x: Option<u8>, ch: u8) -> bool {
+        x == Some(ch)
+    }
+
+    /// `a`, `b`: first and second look-ahead character (None = end of input).
+    pub fn expect(c: char, a: Option<u8>, b: Option<u8>) -> Exp {
+        match c {
+            ',' => Exp::Tok(K::Comma, 1),
+            '(' => Exp::Tok(K::LRBrack, 1),
+            ')' => Exp::Tok(K::RRBrack, 1),
+            '[' => Exp::Tok(K::LSBrack, 1),
+            ']' => Exp::Tok(K::RSBrack, 1),
+            '{' => Exp::Tok(K::LCBrack, 1),
+            '}' => Exp::Tok(K::RCBrack, 1),
+            '|' => Exp::Tok(K::Ver, 1),
+            '\\' => Exp::Tok(K::BSlash, 1),
+            '?' => Exp::Tok(K::Question, 1),
+            ':' => {
+                if is(a, b':') && is(b, b'=') {
+                    Exp::Tok(K::SliceIncl, 3) // "::="
+                } else if is(a, b':') {
+                    Exp::Tok(K::Slice, 2) // "::"
+                } else if is(a, b'=') {
+                    Exp::Tok(K::Assign, 2) // ":="
+                } else {
+                    Exp::Tok(K::DoublePoint, 1) // ":"
+                }
+            }
+            '.' => {
+                if is(a, b'.') && is(b, b'=') {
+                    Exp::Tok(K::RangeIncl, 3) // "..="
+                } else if is(a, b'.') {
+                    Exp::Tok(K::Range, 2) // ".."
+                } else {
+                    Exp::Tok(K::Point, 1) // "."
+                }
+            }
+            '<' => {
+                if is(a, b'<') && is(b, b'=') {
+                    Exp::Tok(K::BLShiftAssign, 3) // "<<="
+                } else if is(a, b'<') {
+                    Exp::Tok(K::BLShift, 2) // "<<"
+                } else if is(a, b'=') {
+                    Exp::Tok(K::Leq, 2) // "<="
+                } else {
+                    Exp::Tok(K::Le, 1) // "<"
+                }
+            }
+            '>' => {
+                if is(a, b'>') && is(b, b'=') {
+                    Exp::Tok(K::BRShiftAssign, 3) // ">>="
+                } else if is(a, b'>') {
+                    Exp::Tok(K::BRShift, 2) // ">>"
+                } else if is(a, b'=') {
+                    Exp::Tok(K::Geq, 2) // ">="
+                } else {
+                    Exp::Tok(K::Ge, 1) // ">"
+                }
+            }
+            '+' => {
+                if is(a, b'=') {
+                    Exp::Tok(K::AddAssign, 2) // "+="
+                } else {
+                    Exp::Tok(K::Add, 1)
+                }
+            }
+            '-' => {
+                if is(a, b'=') {
+                    Exp::Tok(K::SubAssign, 2) // "-="
+                } else if is(a, b'>') {
+                    Exp::Tok(K::To, 2) // "->"
+                } else {
+                    Exp::Tok(K::Sub, 1)
+                }
+            }
+            '*' => {
+                if is(a, b'=') {
+                    Exp::Tok(K::MulAssign, 2) // "*="
+                } else {
+                    Exp::Tok(K::Mul, 1)
+                }
+            }
+            '/' => {
+                if is(a, b'=') {
+                    Exp::Tok(K::DivAssign, 2) // "/="
+                } else if is(a, b'/') {
+                    Exp::Tok(K::FDiv, 2) // "//"
+                } else {
+                    Exp::Tok(K::Div, 1)
+                }
+            }
+            '^' => {
+                if is(a, b'=') {
+                    Exp::Tok(K::PowAssign, 2) // "^="
+                } else {
+                    Exp::Tok(K::Pow, 1)
+                }
+            }
+            '=' => {
+                if is(a, b'>') {
+                    Exp::Tok(K::BTo, 2) // "=>"
+                } else {
+                    Exp::Tok(K::Eq, 1)
+                }
+            }
+            '!' => {
+                if is(a, b'=') {
+                    Exp::Tok(K::Neq, 2) // "!="
+                } else {
+                    Exp::Err // '!' alone is not a token
+                }
+            }
+            ' ' => Exp::Space,
+            '\n' => Exp::Newline(1),
+            '\r' => {
+                if is(a, b'\n') {
+                    Exp::Newline(2)
+                } else {
+                    Exp::Err // lone carriage return
+                }
+            }
+            _ => Exp::Err,
+        }
+    }
+
+    /// What the macro-generated harness wants to put covers on.
+    pub struct StepOut {
+        pub ok: bool,
+        pub kind: K,
+        pub n: usize,
+    }
+
+    /// One call of the real `into_tokens` with concrete first character `c`, `LA` symbolic ASCII
+    /// look-ahead bytes of which the first `n` (symbolic, 0..=LA) are the rest of the input.
+    pub fn step_check<const LA: usize>(c: char) -> StepOut {
+        // ---- inputs --------------------------------------------------------------------------
+        let bytes: [u8; LA] = kani::any();
+        let mut i = 0;
+        while i < LA {
+            kani::assume(bytes[i] < 128); // ASSUMPTION A1: look-ahead is ASCII
+            i += 1;
+        }
+        let n: usize = kani::any();
+        kani::assume(n <= LA); // A2: effective rest-of-input length 0..=LA
+        let rest: &[u8] = &bytes[..n];
+        // ASCII bytes are valid UTF-8 (A1); the checked constructor costs a large validation loop.
+        let s: &str = unsafe { core::str::from_utf8_unchecked(rest) };
+        let mut it = s.chars().peekable();
+
+        let token_this_line: bool = kani::any();
+        let p: usize = kani::any();
+        kani::assume(p >= 1 && p <= 1000); // A3: caret column 1..=1000, line 1
+        let before = CaretPos::new(1, p);
+        // A4 (by construction): no pending newlines, cur_indent == line_indent == 1
+        let mut state = VerifState::verif_new(Vec::new(), 1, 1, token_this_line, before);
+
+        let a = if n > 0 { Some(bytes[0]) } else { None };
+        let b = if n > 1 { Some(bytes[1]) } else { None };
+        let exp = expect(c, a, b);
+
+        // ---- the step ------------------------------------------------------------------------
+        let res: LexResult<Vec<Lex>> = verif_into_tokens(c, &mut it, &mut state);
+
+        // characters left in the iterator (a peeked character is handed out again by next())
+        let mut left: usize = 0;
+        let mut j = 0;
+        while j < LA {
+            if it.next().is_some() {
+                left += 1;
+            }
+            j += 1;
+        }
+        assert!(left <= n, "step: iterator yields more characters than it was given");
+        let consumed = 1 + (n - left);
+        let (cur_indent, line_indent, ttl_after, pending) = state.verif_view();
+
+        let mut out = StepOut { ok: false, kind: K::NoTok, n };
+        match &res {
+            Ok(tokens) => {
+                out.ok = true;
+                assert!(consumed >= 1, "step: progress");
+                match exp {
+                    Exp::Err => {
+                        assert!(false, "step: Ok returned where an error is required");
+                    }
+                    Exp::Space => {
+                        assert!(tokens.len() == 0, "step(space): no token returned");
+                        assert!(consumed == 1, "step(space): consumes exactly the blank");
+                        assert!(
+                            state.pos.line == 1 && state.pos.pos == p + 1,
+                            "step(space): caret one column right"
+                        );
+                        assert!(pending == 0, "step(space): pending newlines unchanged");
+                        assert!(cur_indent == 1, "step(space): cur_indent unchanged");
+                        assert!(
+                            line_indent == 1 + (!token_this_line) as i32,
+                            "step(space): line_indent grows iff no token on this line yet"
+                        );
+                        assert!(
+                            ttl_after == token_this_line,
+                            "step(space): token_this_line unchanged"
+                        );
+                    }
+                    Exp::Newline(w) => {
+                        assert!(tokens.len() == 0, "step(newline): no token returned");
+                        assert!(
+                            consumed == w,
+                            "step(newline): consumes exactly the line break"
+                        );
+                        assert!(
+                            state.pos.line == 2 && state.pos.pos == 1,
+                            "step(newline): caret at start of next line"
+                        );
+                        assert!(pending == 1, "step(newline): one pending newline");
+                        assert!(
+                            cur_indent == 1 && line_indent == 1,
+                            "step(newline): indents"
+                        );
+                        assert!(!ttl_after, "step(newline): token_this_line reset");
+                    }
+                    Exp::Tok(k, w) => {
+                        assert!(tokens.len() == 1, "step: exactly one token returned");
+                        let lex = &tokens[0];
+                        let got = kind_of(&lex.token);
+                        out.kind = got;
+                        assert!(
+                            got == k,
+                            "step: token kind is the longest canonical spelling at the caret"
+                        );
+                        assert!(
+                            lex.pos.start.line == 1 && lex.pos.start.pos == p,
+                            "step: token starts at the caret"
+                        );
+                        assert!(lex.pos.end.line == 1, "step: token ends on the same line");
+                        assert!(
+                            lex.pos.end.pos >= lex.pos.start.pos
+                                && lex.pos.end.pos - lex.pos.start.pos == consumed,
+                            "step: token position width == characters consumed"
+                        );
+                        assert!(
+                            state.pos.line == 1 && state.pos.pos == p + consumed,
+                            "step: caret advanced by characters consumed"
+                        );
+                        assert!(
+                            w == consumed,
+                            "step: characters consumed == length of canonical spelling (table)"
+                        );
+                        assert!(
+                            lex.token.width() == consumed,
+                            "step: characters consumed == Token::width() (Display round trip)"
+                        );
+                        assert!(pending == 0, "step: no pending newlines");
+                        assert!(cur_indent == 1 && line_indent == 1, "step: indents unchanged");
+                        assert!(ttl_after, "step: token_this_line set");
+                    }
+                }
+            }
+            Err(e) => {
+                assert!(
+                    exp == Exp::Err,
+                    "step: Err returned where a token / blank / newline is required"
+                );
+                assert!(
+                    e.pos.line == 1 && e.pos.pos == p,
+                    "step(err): error reported at the caret"
+                );
+                assert!(
+                    state.pos.line == 1 && state.pos.pos == p,
+                    "step(err): caret unchanged"
+                );
+            }
+        }
+        // drop glue of Token::Str(_, Vec<Vec<Lex>>) is recursive and very expensive to encode
+        forget(res);
+        forget(state);
+        out
+    }
+
+    macro_rules! step_harness {
+        ($name:ident, $la:tt, $unw:tt, $c:expr, [$($kind:ident),*], $ok:tt, $err:tt) => {
+            #[kani::proof]
+            #[kani::unwind($unw)]
+            fn $name() {
+                let out = step_check::<$la>($c);
+                step_harness!(@ok $ok, out);
+                step_harness!(@err $err, out);
+                // (kani::cover! wants a literal message; without one it prints the condition)
+                $( kani::cover!(out.kind == K::$kind); )*
+                kani::cover!(out.n == 0, "cover: end of input right after first character (n == 0)");
+                kani::cover!(out.n == $la, "cover: full look-ahead (n == K)");
+            }
+        };
+        (@ok yes, $out:ident) => { kani::cover!($out.ok, "cover: Ok reached"); };
+        (@ok no, $out:ident) => {};
+        (@err yes, $out:ident) => { kani::cover!(!$out.ok, "cover: Err reached"); };
+        (@err no, $out:ident) => {};
+    }
+
+    /// `name2 name3 : first char => [token kinds the arm can produce] ok? err?`
+    macro_rules! step_family {
+        ($( $n2:ident $n3:ident : $c:expr => [$($kind:ident),*] $ok:tt $err:tt ; )*) => {
+            $(
+                step_harness!($n2, 2, 4, $c, [$($kind),*], $ok, $err);
+                step_harness!($n3, 3, 5, $c, [$($kind),*], $ok, $err);
+            )*
+        };
+    }
+
+    step_family! {
+        step2_comma    step3_comma    : ','  => [Comma] yes no;
+        step2_colon    step3_colon    : ':'  => [DoublePoint, Assign, Slice, SliceIncl] yes no;
+        step2_lparen   step3_lparen   : '('  => [LRBrack] yes no;
+        step2_rparen   step3_rparen   : ')'  => [RRBrack] yes no;
+        step2_lbrack   step3_lbrack   : '['  => [LSBrack] yes no;
+        step2_rbrack   step3_rbrack   : ']'  => [RSBrack] yes no;
+        step2_lbrace   step3_lbrace   : '{'  => [LCBrack] yes no;
+        step2_rbrace   step3_rbrace   : '}'  => [RCBrack] yes no;
+        step2_bar      step3_bar      : '|'  => [Ver] yes no;
+        step2_dot      step3_dot      : '.'  => [Point, Range, RangeIncl] yes no;
+        step2_lt       step3_lt       : '<'  => [Le, Leq, BLShift, BLShiftAssign] yes no;
+        step2_gt       step3_gt       : '>'  => [Ge, Geq, BRShift, BRShiftAssign] yes no;
+        step2_plus     step3_plus     : '+'  => [Add, AddAssign] yes no;
+        step2_minus    step3_minus    : '-'  => [Sub, SubAssign, To] yes no;
+        step2_star     step3_star     : '*'  => [Mul, MulAssign] yes no;
+        step2_slash    step3_slash    : '/'  => [Div, DivAssign, FDiv] yes no;
+        step2_bslash   step3_bslash   : '\\' => [BSlash] yes no;
+        step2_caret    step3_caret    : '^'  => [Pow, PowAssign] yes no;
+        step2_eq       step3_eq       : '='  => [Eq, BTo] yes no;
+        step2_bang     step3_bang     : '!'  => [Neq] yes yes;
+        step2_question step3_question : '?'  => [Question] yes no;
+        step2_space    step3_space    : ' '  => [] yes no;
+        step2_nl       step3_nl       : '\n' => [] yes no;
+        step2_cr       step3_cr       : '\r' => [] yes yes;
+    }
+
+    /// Characters that start some arm of `into_tokens`.
+    fn handled_first_char(c: char) -> bool {
+        matches!(
+            c,
+            'a'..='z'
+                | 'A'..='Z'
+                | '0'..='9'
+                | '_'
+                | '"'
+                | '#'
+                | ' '
+                | '\n'
+                | '\r'
+                | ','
+                | ':'
+                | '('
+                | ')'
+                | '['
+                | ']'
+                | '{'
+                | '}'
+                | '|'
+                | '.'
+                | '<'
+                | '>'
+                | '+'
+                | '-'
+                | '*'
+                | '/'
+                | '\\'
+                | '^'
+                | '='
+                | '!'
+                | '?'
+        )
+    }
+
+    /// Any other first character (any Unicode scalar value) at end of input: Err, no panic.
+    #[kani::proof]
+    #[kani::unwind(6)]
+    fn step_other_char() {
+        let c: char = kani::any();
+        kani::assume(!handled_first_char(c)); // A5: c starts no arm
+        let mut it = "".chars().peekable();
+        let mut state = VerifState::new();
+        let res = verif_into_tokens(c, &mut it, &mut state);
+        assert!(res.is_err(), "step_other_char: unrecognised character is an error");
+        if let Err(e) = &res {
+            assert!(
+                e.pos.line == 1 && e.pos.pos == 1,
+                "step_other_char: error reported at the caret"
+            );
+        }
+        assert!(
+            state.pos.line == 1 && state.pos.pos == 1,
+            "step_other_char: caret unchanged"
+        );
+        kani::cover!(c as u32 > 127, "cover: non-ASCII character");
+        kani::cover!((c as u32) < 32, "cover: control character");
+        kani::cover!(c == ';', "cover: ';'");
+        forget(res);
+        forget(state);
+    }
+
+    // ==========================================================================================
+    // B. State one-step summaries
+    // ==========================================================================================
+
+    /// Maximum block depth considered: indents range over [1, 4*D + 1].
+    pub const D: usize = 3;
+    pub const MAX_INDENT: i32 = 4 * (D as i32) + 1;
+    /// Largest possible result of `State::token`: 2 pending + D (in|de)dents + 1 NL + 1 token.
+    pub const MAX_RES: usize = 2 + D + 1 + 1;
+    /// Line numbers of the pre-seeded pending newlines: distinct from each other and from any
+    /// caret line (<= 1000), so their order in the result can be told apart.
+    pub const PENDING_LINE: usize = 2000;
+
+    pub struct Pre {
+        pub c: i32,
+        pub l: i32,
+        pub ttl: bool,
+        pub k: usize,
+        pub pos: CaretPos,
+    }
+
+    fn pending_nl(i: usize) -> Lex {
+        let at = CaretPos::new(PENDING_LINE + i, 1);
+        Lex {
+            pos: Position { start: at, end: at },
+            token: Token::NL,
+        }
+    }
+
+    /// Arbitrary lexer state within the bounds.
+    pub fn any_state() -> (VerifState, Pre) {
+        let c: i32 = kani::any();
+        let l: i32 = kani::any();
+        kani::assume(c >= 1 && c <= MAX_INDENT); // B1: 1 <= cur_indent <= 4*D+1
+        kani::assume(l >= 1 && l <= MAX_INDENT); // B2: 1 <= line_indent <= 4*D+1
+        let ttl: bool = kani::any();
+        let line: usize = kani::any();
+        let col: usize = kani::any();
+        kani::assume(line >= 1 && line <= 1000); // B3
+        kani::assume(col >= 1 && col <= 1000); // B4
+        let k: usize = kani::any();
+        kani::assume(k <= 2); // B5: 0..=2 pending newlines
+        let mut newlines: Vec<Lex> = Vec::with_capacity(3);
+        if k >= 1 {
+            newlines.push(pending_nl(0));
+        }
+        if k >= 2 {
+            newlines.push(pending_nl(1));
+        }
+        let pos = CaretPos::new(line, col);
+        let state = VerifState::verif_new(newlines, c, l, ttl, pos);
+        (state, Pre { c, l, ttl, k, pos })
+    }
+
+    fn at(lex: &Lex, p: CaretPos) -> bool {
+        lex.pos.start.line == p.line && lex.pos.start.pos == p.pos
+    }
+
+    fn is_pending(lex: &Lex, i: usize) -> bool {
+        kind_of(&lex.token) == K::NL && lex.pos.start.line == PENDING_LINE + i
+    }
+
+    /// Post-condition of `State::token(t)` for a non-NL token `t` of kind `kind` and width `w`.
+    ///
+    /// Result layout (state.rs): [last pending NL]? ++ (Indent^a | Dedent^a ++ NL) ++
+    /// [remaining pending NLs in order] ++ [t], where a = |l - c| / 4.
+    fn check_token_post(res: &Vec<Lex>, state: &VerifState, pre: &Pre, kind: K, w: usize) {
+        let up = pre.l >= pre.c;
+        let amount: usize = (if up { pre.l - pre.c } else { pre.c - pre.l } / 4) as usize;
+        let extra_nl: usize = if up { 0 } else { 1 };
+        let first: usize = if pre.k >= 1 { 1 } else { 0 }; // the popped newline
+        let remaining: usize = pre.k - first;
+        let expected_len = pre.k + amount + extra_nl + 1;
+        assert!(res.len() == expected_len, "token: number of tokens returned");
+
+        let mut indents: usize = 0;
+        let mut dedents: usize = 0;
+        macro_rules! check_at {
+            ($i:expr) => {
+                if $i < res.len() {
+                    let lex = &res[$i];
+                    let kd = kind_of(&lex.token);
+                    if kd == K::Indent {
+                        indents += 1;
+                    }
+                    if kd == K::Dedent {
+                        dedents += 1;
+                    }
+                    if $i < first {
+                        assert!(
+                            is_pending(lex, pre.k - 1),
+                            "token: first the most recent pending newline"
+                        );
+                    } else if $i < first + amount {
+                        assert!(
+                            kd == (if up { K::Indent } else { K::Dedent }) && at(lex, pre.pos),
+                            "token: then |l-c|/4 Indent (l >= c) or Dedent (l < c) at the caret"
+                        );
+                    } else if $i < first + amount + extra_nl {
+                        assert!(
+                            kd == K::NL && at(lex, pre.pos),
+                            "token: a newline at the caret closes the dedents"
+                        );
+                    } else if $i < first + amount + extra_nl + remaining {
+                        assert!(
+                            is_pending(lex, $i - (first + amount + extra_nl)),
+                            "token: then the remaining pending newlines in order"
+                        );
+                    } else {
+                        assert!($i + 1 == res.len(), "token: the token itself is last");
+                        assert!(kd == kind, "token: kind of the token itself");
+                        assert!(at(lex, pre.pos), "token: token starts at the caret");
+                        assert!(
+                            lex.pos.end.line == pre.pos.line
+                                && lex.pos.end.pos == pre.pos.pos + w,
+                            "token: token ends width columns further"
+                        );
+                    }
+                }
+            };
+        }
+        check_at!(0);
+        check_at!(1);
+        check_at!(2);
+        check_at!(3);
+        check_at!(4);
+        check_at!(5);
+        check_at!(6);
+        assert!(MAX_RES == 7, "check_at! unrolling matches MAX_RES");
+        assert!(res.len() <= MAX_RES, "token: result within unrolled bound");
+
+        assert!(
+            indents == if up { amount } else { 0 },
+            "token: number of Indent tokens == (l-c)/4 if l >= c else 0"
+        );
+        assert!(
+            dedents == if up { 0 } else { amount },
+            "token: number of Dedent tokens == (c-l)/4 if l < c else 0"
+        );
+
+        let (c2, l2, ttl2, pending2) = state.verif_view();
+        assert!(c2 == pre.l, "token: cur_indent becomes line_indent");
+        assert!(l2 == pre.l, "token: line_indent unchanged");
+        assert!(ttl2, "token: token_this_line set");
+        assert!(pending2 == 0, "token: pending newlines flushed");
+        assert!(
+            state.pos.line == pre.pos.line && state.pos.pos == pre.pos.pos + w,
+            "token: caret advanced by token width on the same line"
+        );
+
+        kani::cover!(pre.l > pre.c, "cover: l > c");
+        kani::cover!(pre.l < pre.c, "cover: l < c");
+        kani::cover!(pre.l == pre.c, "cover: l == c");
+        kani::cover!(pre.k == 2, "cover: k == 2");
+        kani::cover!(pre.k == 0, "cover: k == 0");
+        kani::cover!(amount == D, "cover: D indents/dedents at once");
+        kani::cover!(res.len() == MAX_RES, "cover: longest result");
+    }
+
+    #[kani::proof]
+    #[kani::unwind(5)]
+    fn state_token_pass() {
+        let (mut state, pre) = any_state();
+        let res = state.token(Token::Pass);
+        check_token_post(&res, &state, &pre, K::Pass, 4);
+        forget(res);
+        forget(state);
+    }
+
+    #[kani::proof]
+    #[kani::unwind(5)]
+    fn state_token_comment() {
+        let (mut state, pre) = any_state();
+        let res = state.token(Token::Comment(String::from("c")));
+        check_token_post(&res, &state, &pre, K::Comment, 2);
+        forget(res);
+        forget(state);
+    }
+
+    #[kani::proof]
+    #[kani::unwind(5)]
+    fn state_token_nl() {
+        let (mut state, pre) = any_state();
+        let res = state.token(Token::NL);
+        assert!(res.len() == 0, "token(NL): nothing returned");
+        let (c2, l2, ttl2, pending2) = state.verif_view();
+        assert!(pending2 == pre.k + 1, "token(NL): one more pending newline");
+        assert!(l2 == 1, "token(NL): line_indent reset to 1");
+        assert!(!ttl2, "token(NL): token_this_line reset");
+        assert!(c2 == pre.c, "token(NL): cur_indent unchanged");
+        assert!(
+            state.pos.line == pre.pos.line + 1 && state.pos.pos == 1,
+            "token(NL): caret at start of next line"
+        );
+        kani::cover!(pre.k == 2, "cover: k == 2");
+        kani::cover!(pre.k == 0, "cover: k == 0");
+        kani::cover!(pre.ttl, "cover: token_this_line before");
+        forget(res);
+        forget(state);
+    }
+
+    #[kani::proof]
+    #[kani::unwind(5)]
+    fn state_space() {
+        let (mut state, pre) = any_state();
+        state.space();
+        let (c2, l2, ttl2, pending2) = state.verif_view();
+        assert!(
+            state.pos.line == pre.pos.line && state.pos.pos == pre.pos.pos + 1,
+            "space: caret one column right"
+        );
+        assert!(
+            l2 == pre.l + (!pre.ttl) as i32,
+            "space: line_indent grows iff no token on this line yet"
+        );
+        assert!(c2 == pre.c, "space: cur_indent unchanged");
+        assert!(ttl2 == pre.ttl, "space: token_this_line unchanged");
+        assert!(pending2 == pre.k, "space: pending newlines unchanged");
+        kani::cover!(pre.ttl, "cover: token_this_line");
+        kani::cover!(!pre.ttl, "cover: !token_this_line");
+        kani::cover!(pre.k == 2, "cover: k == 2");
+        forget(state);
+    }
+
+    #[kani::proof]
+    #[kani::unwind(5)]
+    fn state_flush() {
+        let (mut state, pre) = any_state();
+        let res = state.flush_indents();
+        let amount = (pre.c / 4) as usize;
+        assert!(res.len() == amount, "flush: cur_indent/4 tokens returned");
+        macro_rules! check_at {
+            ($i:expr) => {
+                if $i < res.len() {
+                    let lex = &res[$i];
+                    assert!(
+                        kind_of(&lex.token) == K::Dedent && at(lex, pre.pos),
+                        "flush: every token is a Dedent at the caret"
+                    );
+                    assert!(
+                        lex.pos.end.line == pre.pos.line && lex.pos.end.pos == pre.pos.pos,
+                        "flush: Dedent has zero width"
+                    );
+                }
+            };
+        }
+        check_at!(0);
+        check_at!(1);
+        check_at!(2);
+        assert!(D == 3 && res.len() <= D, "flush: result within unrolled bound");
+        let (c2, l2, ttl2, pending2) = state.verif_view();
+        assert!(c2 == 1, "flush: cur_indent becomes 1");
+        assert!(l2 == pre.l, "flush: line_indent unchanged");
+        assert!(ttl2 == pre.ttl, "flush: token_this_line unchanged");
+        assert!(pending2 == pre.k, "flush: pending newlines unchanged");
+        assert!(
+            state.pos.line == pre.pos.line && state.pos.pos == pre.pos.pos,
+            "flush: caret unchanged"
+        );
+        kani::cover!(amount == 0, "cover: nothing to flush");
+        kani::cover!(amount == D, "cover: D dedents");
+        kani::cover!(pre.k == 2, "cover: k == 2");
+        forget(res);
+        forget(state);
+    }
+
+    // ==========================================================================================
+    // C. name tables
+    // ==========================================================================================
+
+    /// Maximum identifier length of the table harnesses.
+    pub const ID_MAX: usize = 6;
+
+    fn ident_byte(b: u8) -> bool {
+        (b >= b'a' && b <= b'z') || (b >= b'A' && b <= b'Z') || (b >= b'0' && b <= b'9') || b == b'_'
+    }
+
+    /// Symbolic identifier-like string: n <= N bytes out of [A-Za-z0-9_].
+    fn any_ident<const N: usize>(bytes: &mut [u8; N]) -> &str {
+        let mut i = 0;
+        while i < N {
+            let b: u8 = kani::any();
+            kani::assume(ident_byte(b)); // C1: identifier characters only
+            bytes[i] = b;
+            i += 1;
+        }
+        let n: usize = kani::any();
+        kani::assume(n <= N); // C2: length 0..=N
+        unsafe { core::str::from_utf8_unchecked(&bytes[..n]) }
+    }
+
+    /// Mamba type name -> Python name. Hand-written. /repo/docs contains no Mamba->Python name
+    /// table (docs only *use* Int, Float, Bool, Complex, Set, List, Tuple, None, Exception, and say
+    /// `String` where the implementation says `Str`), so the left column is taken from the
+    /// constants in src/check/context/clss/mod.rs and the right column is the Python built-in /
+    /// `typing` name one has to write in Python source for it.
+    macro_rules! python_name_table {
+        ($s:ident; $( $mamba:literal => $py:literal ),* $(,)?) => {
+            $( if $s.as_bytes() == $mamba.as_bytes() { Some($py) } else )* { None }
+        };
+    }
+
+    fn expected_python_name(s: &str) -> Option<&'static str> {
+        python_name_table!(s;
+            "Int" => "int",
+            "Float" => "float",
+            "Str" => "str",
+            "Bool" => "bool",
+            "Enum" => "enum",
+            "Complex" => "complex",
+            "Collection" => "collection",
+            "Range" => "range",
+            "Slice" => "slice",
+            "Set" => "set",
+            "List" => "list",
+            "Dict" => "dict",
+            "Tuple" => "Tuple",
+            "Callable" => "Callable",
+            "Union" => "Union",
+            "Any" => "Any",
+            "None" => "None",
+            "Exception" => "Exception",
+        )
+    }
+
+    #[kani::proof]
+    #[kani::unwind(8)]
+    fn table_concrete_to_python() {
+        let mut bytes = [0u8; ID_MAX];
+        let s = any_ident::<ID_MAX>(&mut bytes);
+        let r = concrete_to_python(s);
+        match expected_python_name(s) {
+            Some(py) => {
+                assert!(
+                    r.as_bytes() == py.as_bytes(),
+                    "concrete_to_python: Mamba built-in name maps to its Python name"
+                );
+            }
+            None => {
+                assert!(
+                    r.as_bytes() == s.as_bytes(),
+                    "concrete_to_python: any other name is unchanged"
+                );
+            }
+        }
+        kani::cover!(s.as_bytes() == b"Int", "cover: Int");
+        kani::cover!(s.as_bytes() == b"Float", "cover: Float");
+        kani::cover!(s.as_bytes() == b"Tuple", "cover: Tuple");
+        kani::cover!(s.len() == ID_MAX, "cover: longest identifier");
+        kani::cover!(s.len() == 0, "cover: empty");
+        forget(r);
+    }
+
+    /// Keyword spelling -> token kind. Hand-written from docs/spec/keywords.md; entries marked
+    /// `impl` are not in that document and come from tokenize.rs `as_op_or_id`.
+    macro_rules! keyword_table {
+        ($s:ident; $( $kw:literal => $kind:ident ),* $(,)?) => {
+            $( if $s.as_bytes() == $kw.as_bytes() { Some(K::$kind) } else )* { None }
+        };
+    }
+
+    fn expected_keyword(s: &str) -> Option<K> {
+        keyword_table!(s;
+            "from" => From,
+            "import" => Import,
+            "as" => As,
+            "type" => Type,
+            "class" => Class,
+            "isa" => IsA,
+            "when" => When,
+            "forward" => Forward,
+            "def" => Def,
+            "fin" => Fin,
+            "pure" => Pure,
+            "vararg" => Vararg,
+            "not" => Not,
+            "and" => And,
+            "or" => Or,
+            "is" => Is,
+            "_and_" => BAnd,
+            "_or_" => BOr,
+            "_xor_" => BXOr,
+            "_not_" => BOneCmpl,
+            "mod" => Mod,
+            "sqrt" => Sqrt,
+            "if" => If,
+            "then" => Then,
+            "else" => Else,
+            "match" => Match,
+            "while" => While,
+            "for" => For,
+            "in" => In,
+            "do" => Do,
+            "continue" => Continue,
+            "break" => Break,
+            "return" => Ret,
+            "pass" => Pass,
+            "handle" => Handle,
+            "raise" => Raise,
+            "with" => With,      // impl
+            "_" => Underscore,   // impl
+        )
+    }
+
+    #[kani::proof]
+    #[kani::unwind(8)]
+    fn table_as_op_or_id() {
+        let mut bytes = [0u8; ID_MAX];
+        let s = any_ident::<ID_MAX>(&mut bytes);
+        let tok = verif_as_op_or_id(String::from(s));
+        let got = kind_of(&tok);
+        match expected_keyword(s) {
+            Some(k) => {
+                assert!(got == k, "as_op_or_id: keyword spelling gives its keyword token");
+                assert!(
+                    tok.width() == s.len(),
+                    "as_op_or_id: keyword token's canonical spelling has the input's length"
+                );
+            }
+            None => {
+                assert!(got == K::Id, "as_op_or_id: anything else is an identifier");
+                if let Token::Id(id) = &tok {
+                    assert!(
+                        id.as_bytes() == s.as_bytes(),
+                        "as_op_or_id: identifier text unchanged"
+                    );
+                }
+            }
+        }
+        kani::cover!(got == K::Id, "cover: identifier");
+        kani::cover!(got == K::Underscore, "cover: _");
+        kani::cover!(got == K::Import, "cover: import (6 characters)");
+        kani::cover!(got == K::BXOr, "cover: _xor_");
+        kani::cover!(got == K::As, "cover: as");
+        kani::cover!(s.len() == 0, "cover: empty");
+        forget(tok);
+    }
+}
